@@ -91,16 +91,18 @@ theorem encBytes_inj (a b : Bytes) (h : encBytes a = encBytes b) : a = b :=
   encList_inj (fun _ _ hxy => UInt8.toNat_inj.1 hxy) a b h
 
 def encInfo (i : Info) : Nat :=
-  encList id [i.device.toNat, i.inode.toNat, i.mode.toNat, i.size.toNat, i.mtimeSec.toNat, i.mtimeNsec.toNat]
+  pair (encBytes i.checksum.toList)
+    (encList id [i.device.toNat, i.inode.toNat, i.mode.toNat, i.size.toNat, i.mtimeSec.toNat, i.mtimeNsec.toNat])
 
 theorem encInfo_inj (a b : Info) (h : encInfo a = encInfo b) : a = b := by
-  have := encList_inj (f := id) (fun _ _ h => h) _ _ h
+  obtain ⟨h0, h'⟩ := pair_inj h
+  have := encList_inj (f := id) (fun _ _ h => h) _ _ h'
   simp only [List.cons.injEq, and_true] at this
   obtain ⟨h1, h2, h3, h4, h5, h6⟩ := this
   cases a; cases b
   simp only [Info.mk.injEq]
   exact ⟨UInt64.toNat_inj.1 h1, UInt64.toNat_inj.1 h2, UInt64.toNat_inj.1 h3, UInt64.toNat_inj.1 h4,
-    UInt64.toNat_inj.1 h5, UInt64.toNat_inj.1 h6⟩
+    UInt64.toNat_inj.1 h5, UInt64.toNat_inj.1 h6, Vector.toList_inj.1 (encBytes_inj _ _ h0)⟩
 
 def encFileInfo (i : Codec.FileInfo) : Nat :=
   pair (encBytes i.checksum_bytes)
